@@ -325,6 +325,11 @@ pub fn run_schedule<K: HKey>(
     if !plant.is_empty() {
         st.close();
         for p in plant {
+            if p["kind"].as_str() == Some("staging") {
+                // a leftover staging file of an earlier crash (reported by the scan, removed by clean-up)
+                fs::write(root.join("staging").join(".tmpLEFT"), b"left").unwrap();
+                continue;
+            }
             let c = p["c"].as_str().unwrap_or("C");
             let h = st.u.hash_of(c);
             let path = root.join("cas").join(h.relative_path());
